@@ -25,10 +25,18 @@ import (
 	"verif/vk"
 )
 
-const (
-	verifDir = "/verif"
-	repoDir  = "/repo"
-)
+const repoDir = "/repo"
+
+// verifDir is the root of the verification tree: the working directory when it holds this
+// module (so that a snapshot of /verif runs on its own files), /verif otherwise.
+var verifDir = func() string {
+	if wd, err := os.Getwd(); err == nil {
+		if _, err := os.Stat(filepath.Join(wd, "cmd", "vcheck", "main.go")); err == nil {
+			return wd
+		}
+	}
+	return "/verif"
+}()
 
 type spec struct {
 	Level    string
